@@ -29,6 +29,50 @@ def canon_w(w):
     return w
 
 
+def numeric_collision(w):
+    """does a set / dict anywhere in the wire value hold two members / keys that Python's == merges
+    (True and 1, 0 and False, 1 and 1.0) although they are different values on the wire?"""
+    if isinstance(w, list):
+        return any(numeric_collision(x) for x in w)
+    if isinstance(w, dict):
+        if 'set' in w or 'd' in w:
+            ks = w['set'] if 'set' in w else [k for k, _ in w['d']]
+            try:
+                if len({dec(k) for k in ks}) < len(ks):
+                    return True
+            except TypeError:
+                pass
+            kids = ks + ([v for _, v in w['d']] if 'd' in w else [])
+            return any(numeric_collision(x) for x in kids)
+        for key in ('t', 'jsonify'):
+            if key in w:
+                return numeric_collision(w[key])
+    return False
+
+
+def has_multi_set(w):
+    """a set with two or more members somewhere in the wire value"""
+    if isinstance(w, list):
+        return any(has_multi_set(x) for x in w)
+    if isinstance(w, dict):
+        if 'set' in w and len(w['set']) >= 2:
+            return True
+        if 'd' in w:
+            return any(has_multi_set(k) or has_multi_set(v) for k, v in w['d'])
+        for key in ('t', 'set', 'jsonify'):
+            if key in w:
+                return has_multi_set(w[key])
+    return False
+
+
+def py_equal(a, b):
+    """the two wire values are equal as Python values (True == 1 == 1.0)"""
+    try:
+        return dec(a) == dec(b)
+    except TypeError:
+        return False
+
+
 JSON_MSG = 'Object is not JSON serializable'
 
 
@@ -168,6 +212,9 @@ class Gen:
             if refs and r.random() < 0.5:
                 s = self.fmt_string(refs, small=True)
                 if canon(s) not in seen:
+                    # what the expression gives may be ==-equal to a number in the set (True == 1): which of the
+                    # two survives depends on CPython's (per-process) set iteration order - not an observable
+                    items = [x for x in items if not isinstance(x, int)]
                     items.append(s)
             items.sort(key=canon)
             return {'set': items}
@@ -603,3 +650,448 @@ def monitor_value(ctxw, vw):
                 (want[0] == 'err' and type(want[1]) is not type(got[1])):
             out.append(('jsonify', f'!jsonify: want {want!r} got {got!r}', {'monitor': 'jsonify'}, repr(got)))
     return out
+
+
+# --------------------------------------------------------------------------
+# sessions: several formatting calls on ONE Context, with context updates in between
+# --------------------------------------------------------------------------
+#
+# case  = {'kind': 'session', 'ctx': wire dict, 'calls': [call…]}
+# call  = {'fmt': wire value}            context.get_formatted_value(value)
+#       | {'pyw': E}                     … of PyString(src(E)); E = wire PyExpr plus {'w': [x, E]} for (x := E)
+#       | {'pysrc': src}                 … of PyString(src), arbitrary Python (comprehensions, lambdas):
+#                                        IMPLEMENTATION-ONLY, the model answers `opaque` (no opinion)
+#       | {'set': [key, wire value]}     context[key] = value
+#       | {'del': key}                   context.pop(key, None)
+
+LEFTOVER_SIG = {'site': 'get_eval_string', 'construct': 'walrus-in-comprehension'}
+
+
+def py_src_w(e) -> str:
+    """Render the walrus sub-language to Python source (fully parenthesised, like common.py_src)."""
+    if 'w' in e:
+        return f"({e['w'][0]} := {py_src_w(e['w'][1])})"
+    if 'n' in e:
+        return e['n']
+    if 'c' in e:
+        c = e['c']
+        if c is None or c is True or c is False:
+            return repr(c)
+        if isinstance(c, int):
+            return f'({c})' if c < 0 else str(c)
+        return repr(c)
+    if 'not' in e:
+        return f"(not {py_src_w(e['not'])})"
+    if 'len' in e:
+        return f"len({py_src_w(e['len'])})"
+    if 'idx' in e:
+        return f"{py_src_w(e['idx'][0])}[{py_src_w(e['idx'][1])}]"
+    if 'op' in e:
+        return f"({py_src_w(e['a'])} {e['op']} {py_src_w(e['b'])})"
+    raise ValueError(e)
+
+
+def walrus_facts(src):
+    """Names an expression binds with := by where the binding sits, and the names it reads.
+    Returns {'top': set, 'comp': set, 'lambda': set, 'reads': set}; None when src does not parse."""
+    import ast
+    try:
+        tree = ast.parse(src, mode='eval')
+    except SyntaxError:
+        return None
+    facts = {'top': set(), 'comp': set(), 'lambda': set(), 'reads': set()}
+    comps = (ast.ListComp, ast.SetComp, ast.DictComp, ast.GeneratorExp)
+
+    def walk(node, where):
+        if isinstance(node, ast.NamedExpr):
+            facts[where].add(node.target.id)
+            walk(node.value, where)
+            return
+        if isinstance(node, ast.Name) and isinstance(node.ctx, ast.Load):
+            facts['reads'].add(node.id)
+        if isinstance(node, ast.Lambda):
+            where = 'lambda'
+        elif isinstance(node, comps) and where != 'lambda':
+            where = 'comp'
+        for ch in ast.iter_child_nodes(node):
+            walk(ch, where)
+    walk(tree, 'top')
+    return facts
+
+
+def call_src(call):
+    if 'pyw' in call:
+        return py_src_w(call['pyw'])
+    if 'pysrc' in call:
+        return call['pysrc']
+    return None
+
+
+def _outcome(thunk):
+    try:
+        return ('ok', thunk())
+    except RecursionError:
+        return ('rec', None)
+    except Exception as e:  # noqa
+        return ('err', e)
+
+
+def _obs(o, py=False):
+    """wire observation of an outcome; `!py` errors are compared by exception name (the model's TypeError /
+    IndexError texts are abbreviations), NameError with its text"""
+    if o[0] == 'rec':
+        return {'err': {'name': 'OutOfFuel', 'msg': ''}}
+    if o[0] == 'err':
+        ob = canon_err(exc_name(o[1]), str(o[1]))
+        if py and ob['err']['name'] != 'NameError':
+            ob['err']['msg'] = ''
+        return ob
+    try:
+        return {'ok': canon_w(enc(o[1]))}
+    except ValueError as e:
+        return {'unencodable': str(e)}
+
+
+def _same_outcome(want, got):
+    if want[0] != got[0]:
+        return False
+    if want[0] == 'ok':
+        return _deep_same(want[1], got[1])
+    if want[0] == 'err':
+        return type(want[1]) is type(got[1])
+    return True
+
+
+def _show(o):
+    return f'{type(o[1]).__name__}: {o[1]}' if o[0] == 'err' else repr(o[1]) if o[0] == 'ok' else 'RecursionError'
+
+
+def _brace_free(v):
+    """no '{' / '}' in any string of v, no special tag or object in v"""
+    return all('{' not in x and '}' not in x for x in _strings(v))
+
+
+def _strings(v):
+    if isinstance(v, str):
+        yield v
+    elif isinstance(v, dict):
+        for k, x in v.items():
+            yield from _strings(k)
+            yield from _strings(x)
+    elif isinstance(v, (list, tuple, set, frozenset)):
+        for x in v:
+            yield from _strings(x)
+    elif not isinstance(v, (int, float, bytes, type(None))):
+        yield '{'        # special tags / objects: not "plain"
+
+
+def _strings_w(w):
+    """the strings of a wire value"""
+    if isinstance(w, str):
+        yield w
+    elif isinstance(w, list):
+        for x in w:
+            yield from _strings_w(x)
+    elif isinstance(w, dict):
+        for key in ('t', 'set'):
+            if key in w:
+                yield from _strings_w(w[key])
+        if 'd' in w:
+            for k, v in w['d']:
+                yield from _strings_w(k)
+                yield from _strings_w(v)
+        if 'jsonify' in w:
+            yield from _strings_w(w['jsonify'])
+
+
+def _py_names_w(w):
+    """names read by the !py expressions inside a wire value"""
+    out = set()
+    if isinstance(w, list):
+        for x in w:
+            out |= _py_names_w(x)
+    elif isinstance(w, dict):
+        if 'py' in w:
+            f = walrus_facts(py_src(w['py']))
+            out |= f['reads'] if f else set()
+        for key in ('t', 'set'):
+            if key in w:
+                out |= _py_names_w(w[key])
+        if 'd' in w:
+            for k, v in w['d']:
+                out |= _py_names_w(k) | _py_names_w(v)
+        if 'jsonify' in w:
+            out |= _py_names_w(w['jsonify'])
+    return out
+
+
+def _replica_eval(src, items):
+    """What eval gives when globals is a ChainMap posing as a dict (context first) and locals a child of it:
+    the documented mechanism of ADR 0001, rebuilt here from collections alone. Used only to CONFIRM the cause
+    of a deviation that the plain-Python oracle has already established."""
+    import builtins
+    import collections
+
+    class _Chain(collections.ChainMap, dict):
+        pass
+    g = _Chain(items, {})
+    dict.__setitem__(g, '__builtins__', builtins.__dict__)
+    return eval(src, g, g.new_child())
+
+
+def _ctx_state(ctx):
+    return [(k, id(v), canon(canon_w(enc(v)))) for k, v in ctx.items()]
+
+
+def run_session(case):
+    """Run one session on the implementation. Returns (observations, violations, hidden):
+    observations: one wire obs per call (None for updates);
+    violations:   [(clause, detail, signature, obs)] judged from the property text alone:
+      * py-evaluates-at-that-moment: a !py call gives what plain Python eval(src, dict(context)) — the context keys
+        as variables and nothing else — gives for the context as it is at that call (missing name: NameError)
+      * fresh-context: any formatting call gives what the same call gives on a NEW Context with the same items
+      * name-read: '{name}' gives the (brace-free) context value of name, KeyNotInContextError when it is not a key
+      * context-changed: a formatting call leaves keys, order, values and value identities of the context alone
+    hidden: True when an evaluation left something in the raw dict slot of context._pystring_namespace."""
+    from pypyr.context import Context
+    from pypyr.dsl import PyString
+    from pypyr.errors import KeyNotInContextError
+    ctx = Context(dec(case['ctx']))
+    obs, viol = [], []
+    bound_before = []          # (call index, where, names) of earlier := bindings
+    hidden = False
+    for i, call in enumerate(case['calls']):
+        if 'set' in call:
+            ctx[call['set'][0]] = dec(call['set'][1])
+            obs.append(None)
+            continue
+        if 'del' in call:
+            ctx.pop(call['del'], None)
+            obs.append(None)
+            continue
+        src = call_src(call)
+        is_py = src is not None
+        make = (lambda: PyString(src)) if is_py else (lambda: dec(call['fmt']))
+        # the oracles, computed before the call under test
+        want_py = _outcome(lambda: eval(src, dict(ctx))) if is_py else None
+        want_fresh = _outcome(lambda: Context(dict(ctx)).get_formatted_value(make()))
+        before = _ctx_state(ctx)
+        ns_before = getattr(ctx, '_pystring_namespace', None)
+        ns_before = dict(dict.items(ns_before)) if isinstance(ns_before, dict) else None
+        got = _outcome(lambda: ctx.get_formatted_value(make()))
+        after = _ctx_state(ctx)
+        o = _obs(got, py=is_py)
+        obs.append(o)
+        facts = walrus_facts(src) if is_py else None
+
+        def sig_for(clause):
+            """the signature of a deviation; the known cause (an assignment expression inside a comprehension
+            compiles to STORE_GLOBAL / LOAD_GLOBAL, which hit the raw dict slot of the namespace object instead
+            of the chain map) is named only when its mechanism is confirmed on this very call"""
+            sig = {'monitor': 'py-session', 'clause': clause}
+            reads = facts['reads'] if facts else set()
+            if not is_py:
+                reads = {n.split('.')[0].split('[')[0] for x in _strings_w(call.get('fmt'))
+                         for _, n, _, _ in (top_fields(x) or []) if n} | _py_names_w(call.get('fmt'))
+            own = sorted(facts['comp'] & facts['reads']) if facts else []
+            if own and got[0] != 'rec' and _same_outcome(_outcome(lambda: _replica_eval(src, dict(ctx))), got):
+                return dict(sig, **LEFTOVER_SIG, effect='read-back-misses-binding', name=own[0],
+                            target_is_context_key=own[0] in ctx)
+            slot = set(dict.keys(ns_before)) - {'__builtins__'} if ns_before is not None else set()
+            for j, where, names in bound_before:
+                hit = sorted(names & reads & slot)
+                if where == 'comp' and hit and hit[0] not in ctx:
+                    return dict(sig, **LEFTOVER_SIG, effect='persists-in-namespace-dict', name=hit[0],
+                                target_is_context_key=False)
+            for j, where, names in bound_before:
+                hit = sorted(names & reads)
+                if hit:
+                    sig.update(construct='walrus-' + where, name=hit[0], bound_by_call=j)
+                    return sig
+            return sig
+
+        if before != after:
+            viol.append(('context-changed', f'call {i} ({src or call.get("fmt")!r}) changed the context: '
+                         f'{[(k, c) for k, _, c in before]} -> {[(k, c) for k, _, c in after]}',
+                         sig_for('context-changed'), o))
+        if is_py and not _same_outcome(want_py, got):
+            viol.append(('py-evaluates-at-that-moment',
+                         f'call {i}: !py {src!r} with context {dict(ctx)!r}: Python gives {_show(want_py)}, '
+                         f'formatting gives {_show(got)}', sig_for('py-evaluates-at-that-moment'), o))
+        elif not _same_outcome(want_fresh, got):
+            viol.append(('fresh-context', f'call {i} ({src or call.get("fmt")!r}) with context {dict(ctx)!r}: a new Context '
+                         f'with the same items gives {_show(want_fresh)}, this one gives {_show(got)}',
+                         sig_for('fresh-context'), o))
+        if not is_py and isinstance(call['fmt'], str):
+            s = call['fmt']
+            if len(s) > 2 and s[0] == '{' and s[-1] == '}' and s[1:-1].isidentifier():
+                n = s[1:-1]
+                if n not in ctx:
+                    ok = got[0] == 'err' and isinstance(got[1], KeyNotInContextError)
+                    want_txt = 'KeyNotInContextError'
+                else:
+                    ok = not _brace_free(ctx[n]) or (got[0] == 'ok' and _deep_same(got[1], ctx[n]))
+                    want_txt = repr(ctx[n])
+                if not ok:
+                    viol.append(('name-read', f'call {i}: {s!r} with context {dict(ctx)!r} must give {want_txt}, '
+                                 f'gave {_show(got)}', sig_for('name-read'), o))
+        if facts:
+            for where in ('top', 'comp', 'lambda'):
+                if facts[where]:
+                    bound_before.append((i, where, set(facts[where])))
+        ns = getattr(ctx, '_pystring_namespace', None)
+        if ns is not None and set(dict.keys(ns)) - {'__builtins__'}:
+            hidden = True
+    return obs, viol, hidden
+
+
+# ---- session generator -------------------------------------------------------------------------
+
+S_NAMES = ['a', 'b', 'n', 'x', 'limit', 'total', 'count', 'max', 'sum']   # max / sum: context keys shadow builtins
+BUILTIN_NAMES = {'max', 'sum'}
+S_LISTS = ['items', 'xs']
+S_MISSING = ['zz', 'nokey']
+S_TARGETS = S_NAMES + ['tmp', 'w1', 'items']
+
+
+class SessGen:
+    def __init__(self, rng):
+        self.r = rng
+
+    def int_const(self):
+        return self.r.choice([0, 1, 2, 3, 5, 7, 10, -1, -4, 42, 10 ** 12, True, False])
+
+    def ctx(self):
+        r = self.r
+        kv = {}
+        for k in r.sample(S_NAMES, r.randint(1, 4)):
+            kv[k] = self.int_const()
+        for k in S_LISTS:
+            if r.random() < 0.6:
+                kv[k] = [r.choice([1, 2, 3, 8, 12, -5]) for _ in range(r.randint(0, 4))]
+        if r.random() < 0.3:
+            kv['s'] = r.choice(['abc', '', 'two words', 'x{a}' if 'a' in kv else 'pl'])
+        items = list(kv.items())
+        r.shuffle(items)
+        return dict(items)
+
+    def int_expr(self, depth, env, targets, allow_w=True):
+        """env: name -> 'int' | 'list' | 'str' (context keys and what this expression has bound so far, in
+        evaluation order); targets: collects the names this expression binds"""
+        r = self.r
+        ints = [k for k, t in env.items() if t == 'int']
+        lists = [k for k, t in env.items() if t == 'list']
+        q = r.random()
+        if depth <= 0 or q < 0.22:
+            if ints and r.random() < 0.7:
+                return {'n': r.choice(ints)}
+            if r.random() < 0.08:
+                return {'n': r.choice([n for n in S_MISSING + S_TARGETS if env.get(n) in (None, 'int')])}   # maybe unbound
+            return {'c': self.int_const()}
+        if q < 0.5 and allow_w:
+            t = r.choice(S_TARGETS)
+            a = self.int_expr(depth - 1, env, targets)
+            env[t] = 'int'
+            targets.add(t)
+            return {'w': [t, a]}
+        if q < 0.58 and lists:
+            return {'len': {'n': r.choice(lists)}}
+        if q < 0.64 and lists:
+            return {'idx': [{'n': r.choice(lists)}, {'c': r.choice([0, 1, -1, 2, 5])}]}
+        if q < 0.72:
+            op = r.choice(['and', 'or'])
+            a = self.int_expr(depth - 1, env, targets)
+            b = self.int_expr(depth - 1, dict(env), targets)       # may not run: binds nothing for sure
+            return {'op': op, 'a': a, 'b': b}
+        if q < 0.78:
+            return {'not': self.int_expr(depth - 1, env, targets)}
+        if q < 0.86:
+            op = r.choice(['==', '!=', '<', '<=', '>', '>='])
+        else:
+            op = r.choice(['+', '+', '-', '*'])
+        a = self.int_expr(depth - 1, env, targets)
+        b = self.int_expr(depth - 1, env, targets)
+        return {'op': op, 'a': a, 'b': b}
+
+    def pysrc(self, kv, targets):
+        """arbitrary-Python forms (implementation-only): := in comprehensions / lambdas, nested-scope reads"""
+        r = self.r
+        t = r.choice(S_TARGETS[:-1])
+        L = r.choice([k for k in S_LISTS if k in kv] or ['[1, 2, 3]'])
+        if r.random() < 0.25:
+            L = '[1, 2, 3]'
+        ints = [k for k, v in kv.items() if isinstance(v, int)]
+        K = r.choice(ints) if ints else '4'
+        forms = [
+            ('[({t} := i) for i in {L}]', True), ('[{t} for i in {L} if ({t} := i * 2) > 2]', True),
+            ('any(({t} := i) > 1 for i in {L})', True), ('{{i: ({t} := i) for i in {L}}}', True),
+            ('(lambda: ({t} := 5))()', True), ('(lambda q: ({t} := q) + 1)({K})', True),
+            ('[(lambda: ({t} := i))() for i in {L}]', True), ('sum([({t} := i) for i in {L}]) + {K}', True),
+            ('[({t} := i) for i in {L}] and {t}', True), ('({t} := {K}) + sum([{t} for i in {L}])', True),
+            ('[i + {K} for i in {L}]', False), ('(lambda: {K} + 1)()', False), ('[(lambda: {K})() for i in {L}]', False),
+            ('[j for i in {L} for j in [i, {K}]]', False), ('sorted({L})', False), ('len({L}) + {K}', False),
+        ]
+        f, binds = r.choice(forms)
+        if binds:
+            targets.add(t)
+        return f.format(t=t, L=L, K=K)
+
+    def case(self):
+        r = self.r
+        kv = self.ctx()
+        ctx0 = {'d': [[k, list(v) if isinstance(v, list) else v] for k, v in kv.items()]}
+        calls = []
+        seen_targets = []
+
+        def types():
+            return {k: ('int' if isinstance(v, int) else 'list' if isinstance(v, list) else 'str') for k, v in kv.items()}
+
+        def reads(names):
+            for t in names:
+                q = r.random()
+                if q < 0.75:
+                    if isinstance(kv.get(t, 0), int):
+                        calls.append({'pyw': r.choice([{'n': t}, {'op': '*', 'a': {'n': t}, 'b': {'c': 2}},
+                                                       {'op': '+', 'a': {'c': 1}, 'b': {'n': t}}])})
+                    else:           # list / str valued key: no arithmetic outside PyEval's operator table
+                        calls.append({'pyw': r.choice([{'n': t}, {'len': {'n': t}}])})
+                if q > 0.4:
+                    calls.append({'fmt': _subst(r.choice(['{%s}', '{%s}', 'v={%s}', '{%s:>4}', ['{%s}', 1]]), t)})
+
+        for _ in range(r.randint(2, 4)):
+            q = r.random()
+            tg = set()
+            if q < 0.45:
+                e = self.int_expr(r.randint(1, 3), types(), tg, allow_w=r.random() < 0.8)
+                calls.append({'pyw': e})
+            elif q < 0.58:
+                names = [k for k in kv] + seen_targets + S_MISSING[:1]
+                t = r.choice(names)
+                v = _subst(r.choice(['{%s}', 'is {%s}!', '{%s:>5}', ['{%s}', {'d': [['k', 'x{%s}']]}], {'t': ['{%s}', 2]}]), t)
+                if r.random() < 0.3:
+                    v = [v, {'py': {'n': t}}]
+                calls.append({'fmt': v})
+            elif q < 0.74:
+                t = r.choice(seen_targets + S_NAMES if seen_targets and r.random() < 0.7 else S_NAMES + S_LISTS)
+                v = self.int_const() if t not in S_LISTS else [r.choice([1, 2, 9]) for _ in range(r.randint(0, 3))]
+                kv[t] = v
+                calls.append({'set': [t, v]})
+                if r.random() < 0.8:
+                    reads([t])
+            elif q < 0.8:
+                t = r.choice(seen_targets + list(kv) if seen_targets else list(kv) or ['a'])
+                kv.pop(t, None)
+                calls.append({'del': t})
+                if r.random() < 0.8:
+                    reads([t])
+            else:
+                calls.append({'pysrc': self.pysrc(kv, tg)})
+            if tg:
+                names = sorted(tg)
+                seen_targets.extend(n for n in names if n not in seen_targets)
+                reads(names if r.random() < 0.9 else names[:1])
+        return {'kind': 'session', 'ctx': ctx0, 'calls': calls}
+
+
+def _subst(v, t):
+    return json.loads(json.dumps(v).replace('%s', t))
